@@ -141,7 +141,7 @@ def api_clause(prior_ops, multi_task, had_other):
                 ncomp += 1
             elif k in ('FAR', 'NEAR', 'FAR_BAD', 'NEAR_BAD'):
                 nfield += 1
-            elif k.startswith('OBS'):
+            elif k.startswith('OBS') or k == 'REPORT_EARLY':
                 nobs += 1
     if touched - {f}:
         return 'H2'
